@@ -246,6 +246,71 @@ class LoopCfg:
     def has(self, f: str) -> bool:
         return f in self.flags
 
+    @staticmethod
+    def from_case_text(text: str) -> "tuple[LoopCfg, dict, list[str]]":
+        """Rebuild the configuration, the meta record and the answer list from a case block."""
+        import json as _json
+        c = LoopCfg()
+        meta: dict = {}
+        answers: list[str] = []
+        for line in text.splitlines():
+            if line.startswith("# meta "):
+                meta = _json.loads(line[len("# meta "):])
+            elif line.startswith("a "):
+                answers.append(line[2:])
+            elif line.startswith("cfg "):
+                for tok in line.split()[1:]:
+                    k, _, v = tok.partition("=")
+                    if k == "max_attempts":
+                        c.max_attempts = int(v)
+                    elif k == "deadline":
+                        c.deadline = int(v)
+                    elif k == "max_unknown":
+                        c.max_unknown = None if v == "-" else int(v)
+                    elif k == "per_class":
+                        c.per_class = {} if v == "-" else {x.split(":")[0]: int(x.split(":")[1]) for x in v.split(",")}
+                    elif k == "strat_default":
+                        c.strat_default = None if v == "-" else v
+                    elif k == "strat_for":
+                        c.strat_for = {} if v == "-" else {x.split(":")[0]: x.split(":")[1] for x in v.split(",")}
+                    elif k == "strat_records":
+                        c.strat_records = [] if v == "-" else v.split(",")
+                    elif k == "budget":
+                        c.budget = None if v == "-" else (int(v.split(":")[0]), int(v.split(":")[1]))
+                    elif k == "breaker":
+                        if v == "-":
+                            c.breaker = None
+                        else:
+                            th, win, rec, trip, cls = v.split(";")
+                            c.breaker = {"threshold": int(th), "window": int(win), "recovery": int(rec),
+                                         "trip": [] if trip == "-" else trip.split("+"),
+                                         "cls": {} if cls == "-" else {x.split(":")[0]: int(x.split(":")[1])
+                                                                       for x in cls.split(",")}}
+                    elif k == "operation":
+                        c.operation = None if v == "-" else ("" if v == "~" else v)
+                    elif k == "flags":
+                        c.flags = set() if v == "-" else set(v.split(","))
+            elif line.startswith("init "):
+                for tok in line.split()[1:]:
+                    k, _, v = tok.partition("=")
+                    if k == "now":
+                        c.init_now = int(v)
+                    elif k == "budget":
+                        c.init_budget = [] if v == "-" else [int(x) for x in v.split(",")]
+                    elif k == "breaker":
+                        st, oa, pr, fs, cfs = v.split(";")
+                        cf: dict = {}
+                        if cfs != "-":
+                            for x in cfs.split(","):
+                                kk, t = x.split(":")
+                                cf.setdefault(kk, []).append(int(t))
+                        c.init_breaker = {"state": st, "opened_at": None if oa == "-" else int(oa),
+                                          "probe": pr == "1", "failures": [] if fs == "-" else [int(x) for x in fs.split(",")],
+                                          "class_failures": cf}
+        c.kind = meta.get("kind", "Retry")
+        c.via_context = meta.get("via_context", False)
+        return c, meta, answers
+
     def cfg_line(self) -> str:
         parts = [f"max_attempts={self.max_attempts}", f"deadline={self.deadline}",
                  f"max_unknown={opt(self.max_unknown)}"]
@@ -798,7 +863,10 @@ def run_case(case_id: str, cfg: LoopCfg, script: list, oracle, wall_seed: int = 
     env = Env(cfg, oracle, wall_seed)
     env.deliver_throw = deliver_throw
     built = build(env, cfg)
-    lines = [f"case {case_id}", cfg.cfg_line(), cfg.init_line()]
+    import json as _json
+    meta = {"kind": cfg.kind, "via_context": cfg.via_context, "wall_seed": wall_seed,
+            "deliver_throw": deliver_throw, "script": [list(s) for s in script]}
+    lines = [f"case {case_id}", "# meta " + _json.dumps(meta), cfg.cfg_line(), cfg.init_line()]
     results: list[StepResult] = []
     k = 0
     for st in script:
